@@ -1052,9 +1052,9 @@ def render_extract(ex, vac=False, strip_proof=False):
         # block after it) is emitted as an `async fn` whose body is the block; the variables it uses become the listed parameters.
         # A `?` inside an async block leaves the block with that error, hence the lifted fn.
         sig = ex.lift_block
-        if not sig.startswith('async '):
-            raise Undecided('lift-block: signature must start with `async`')
-        sig = sig[len('async '):]
+        blk_async = sig.startswith('async ')
+        if blk_async:
+            sig = sig[len('async '):]
         anchor = getattr(ex, 'lift_anchor', None)
         if not anchor or body.count(anchor) != 1:
             raise Undecided('lift-block: lift-anchor literal %r occurs %d times' % (anchor, body.count(anchor) if anchor else 0))
@@ -1062,22 +1062,29 @@ def render_extract(ex, vac=False, strip_proof=False):
         toks = tokenize(body)
         blk = None
         for i_, (k_, t_, s0_, _) in enumerate(toks):
-            if s0_ >= apos and k_ == 'id' and t_ == 'async':
+            if blk_async and s0_ >= apos and k_ == 'id' and t_ == 'async':
                 j_ = nontrivia(toks, i_)
                 if j_ < len(toks) and toks[j_][1] == 'move':
                     j_ = nontrivia(toks, j_)
                 if j_ < len(toks) and toks[j_][1] == '{':
                     blk = (j_, match_close(toks, j_))
                     break
+            if not blk_async and s0_ >= apos + len(anchor):
+                # plain form: the anchor literal ends right in front of the block (e.g. a match arm `PATTERN =>`), which is taken as the body of a plain fn
+                if k_ in TRIVIA:
+                    continue
+                if t_ == '{':
+                    blk = (i_, match_close(toks, i_))
+                break
         if blk is None:
-            raise Undecided('lift-block: no async block after %r' % anchor)
+            raise Undecided('lift-block: no %sblock after %r' % ('async ' if blk_async else '', anchor))
         inner = body[toks[blk[0]][2]:toks[blk[1]][3]]
         m_ = re.match(r'\s*([A-Za-z_][A-Za-z0-9_]*)', sig)
         log.append({'rule': 'R6d', 'lifted_async_block_after': anchor, 'of': name, 'as': ex.lift_block,
                     'block_sha256': hashlib.sha256(inner.encode()).hexdigest()[:16],
                     'note': 'the rest of the enclosing function is not part of the verified text'})
         name = m_.group(1)
-        header = 'async fn ' + (sig.replace(name, name + '__vac', 1) if vac else sig)
+        header = ('async fn ' if blk_async else 'fn ') + (sig.replace(name, name + '__vac', 1) if vac else sig)
         body = inner
         ex = __import__('copy').copy(ex)
         ex.ret = None
